@@ -10,18 +10,12 @@ BOUNDED_NOTE = ('trusted: the reference semantics / readers under /verif (gen/, 
 PY_TECH = 'contract-based deductive verification (Python-ast -> SMT VCs, z3+cvc5) of the leaf emitters; run-time contracts and a reference-binding oracle on a bounded scope for the rest'
 CHECKS = {
     'C01': dict(cat='other', design='7/C01',
-                text='Exact structural checks of the live grammar graph (results-name dataflow, flag/terminal table, end anchor) + bounded round trip: '
-                     'for seeded derivations of a reference grammar written from DOCS.md the abstracted real parse tree must equal the written tree. '
-                     'The matcher is third-party, so only the repository side could be under contract; no node-constructor proof is claimed yet.',
-                note=BOUNDED_NOTE, technique='structural inspection of the grammar objects built by the real code + bounded exhaustive/seeded round trip (bounded stand-in; nothing counted as proved)'),
+                text='The 22 repository-side node constructors that the grammar actions call (fields, member classification by kind in source order, parent links, constructor-name and operator validation) are proved against contracts for all arguments. Exact structural checks of the live grammar graph (results-name dataflow, flag/terminal table, end anchor). Bounded round trip: for seeded derivations of a reference grammar written from DOCS.md the abstracted real parse tree must equal the written tree. The pyparsing matcher and the class-body lambdas are outside the proof.',
+                note=BOUNDED_NOTE, technique='contract-based deductive verification (Python-ast -> SMT VCs, z3+cvc5) of the functions listed in the evidence; bounded stand-in (real output read back / reference oracle on a stated scope) for the rest; structural inspection of the grammar objects built by the real code'),
     'C02': dict(cat='other', design='7/C02',
-                text='Bounded: every type of every instantiated member on the scope (random + sanitised + curated scenarios with look-alike identifiers, This::X, '
-                     'multi-instantiation templates) is compared, through the emitted bindings, with capture-free reference substitution. instantiate_type itself is '
-                     'out of the VC generator\'s reach (aliased in-place mutation of a deep copy).',
-                note=BOUNDED_NOTE, technique='bounded stand-in: run-time comparison with reference substitution on a stated scope (no obligation counted as proved)'),
-    'C03': dict(cat='other', design='7/C03', text='Leaf emitters (constructors, dunders, properties, operators, variables, module-variable / qualification helpers) proved equal to their '
-                     'denotations for all inputs; _wrap_method / wrap_methods / wrap_functions under run-time contracts; presence, names, submodule placement, top-namespace and ignore '
-                     'filters decided on a bounded scope by reading real output back and comparing with the bindings declared by the reference semantics.',
+                text='instantiate_args_list / instantiate_return_type proved to keep argument names, default text, order and the pair/single shape (over an assumed type-level contract of instantiate_type, which is out of reach: deep copy, str.replace). Bounded: every type of every instantiated member on the scope (random + sanitised + curated scenarios with look-alike identifiers, This::X, multi-instantiation templates, every shape of the structured scope) is compared, through the emitted bindings, with capture-free reference substitution.',
+                note=BOUNDED_NOTE, technique='contract-based deductive verification (Python-ast -> SMT VCs, z3+cvc5) of the functions listed in the evidence; bounded stand-in (real output read back / reference oracle on a stated scope) for the rest'),
+    'C03': dict(cat='other', design='7/C03', text='Leaf emitters (constructors, dunders, properties, operators, variables, enums, class-scoped enums, forward-declaration classes, module-variable / qualification helpers) proved equal to their denotations for all inputs; _wrap_method / wrap_methods / wrap_functions / wrap_instantiated_class under run-time contracts (not proved); presence, names, submodule placement, top-namespace and ignore filters decided on a bounded scope by reading real output back and comparing with the bindings declared by the reference semantics.',
                 note=BOUNDED_NOTE, technique=PY_TECH),
     'C04': dict(cat='other', design='7/C04', text='Keyword-argument lists with defaults, lambda parameter lists, callee spellings with explicit template arguments, void detection and serialization '
                      'bindings proved equal to their denotations for all inputs; forwarding of every emitted binding (types, names, defaults, order, static/instance, return) '
@@ -38,20 +32,16 @@ CHECKS = {
                      'placed in each gateway call; termination not proved.',
                 technique='contract-based deductive verification: Python-ast -> SMT VCs (class invariant, loop invariants, ghost call-site log), z3+cvc5',
                 design='7/C05'),
-    'C06': dict(cat='other', design='7/C06', text='Bounded read-back of real MATLAB output on a structured scope: arities n..n-k, checkArguments counts, unwrap statements (name, position, mode), '
-                     'call arguments followed by omitted defaults, return outputs, and .m guards. Proofs of _expand_default_arguments etc. are not claimed yet.',
-                note=BOUNDED_NOTE, technique='bounded stand-in: generated .m/.cpp read back and compared with declared signatures on a stated scope'),
-    'C07': dict(cat='other', design='7/C07', text='Exact: end-of-input anchor and results-name dataflow of the live grammar; write-after-validation ordering of the three entry points (syntactic). '
-                     'Bounded: token-level corruptions of seeded modules are rejected or fully accounted for; failing runs leave scratch output trees byte-identical.',
-                note=BOUNDED_NOTE, technique='structural checks of grammar graph and entry-point control flow + bounded fault enumeration'),
-    'C08': dict(cat='other', design='7/C08', text='Instantiated names and callee spellings proved; count, order (first parameter slowest), naming, typedef instantiations and pass-through decided '
-                     'on the bounded scope against the reference product semantics.', note=BOUNDED_NOTE, technique=PY_TECH),
+    'C06': dict(cat='other', design='7/C06', text='Proved for all inputs: the MATLAB guards (i-th guard tests varargin{i} against the class of the i-th declared type), the C++/MATLAB type spelling, the passing-mode table of _unwrap_argument, the unwrap statements (i-th parameter from in[id0+i-1]) and the call arguments (declared order, omitted defaults by their text, dereference rule) of _wrapper_unwrap_arguments, enum tests and varargout text; these are conditional contracts (type names plain). Bounded read-back of real MATLAB output on a structured scope for the rest: arities n..n-k, checkArguments counts, return outputs and enum classes, .m guards; _expand_default_arguments, _group_methods and the _collector_return family are not proved.',
+                note=BOUNDED_NOTE, technique='contract-based deductive verification (Python-ast -> SMT VCs, z3+cvc5) of the functions listed in the evidence; bounded stand-in (real output read back / reference oracle on a stated scope) for the rest'),
+    'C07': dict(cat='other', design='7/C07', text='Proved: the validating constructors (an accepted class has only constructors carrying its name; an accepted operator is unary +/- or has one argument of the result type). Exact: end-of-input anchor and results-name dataflow of the live grammar; write-after-validation ordering of the three entry points (syntactic). Bounded: token-level corruptions of seeded modules (incl. misspelled constructors) are rejected or fully accounted for; failing runs leave scratch output trees byte-identical.',
+                note=BOUNDED_NOTE, technique='contract-based deductive verification (Python-ast -> SMT VCs, z3+cvc5) of the functions listed in the evidence; bounded stand-in (real output read back / reference oracle on a stated scope) for the rest; structural checks of grammar graph and entry-point control flow; bounded fault enumeration'),
+    'C08': dict(cat='other', design='7/C08', text='Proved: instantiate_name (capitalised concatenation), Typename.instantiated_name / __init__, the C++ spelling Name<args> under the collected namespaces (InstantiatedClass.cpp_typename / to_cpp, InstantiatedDeclaration.to_cpp) and the callee spellings of instantiated members (collect_namespaces assumed). Count, order (first parameter slowest), typedef instantiations and pass-through decided on the bounded scope against the reference product semantics.', note=BOUNDED_NOTE, technique=PY_TECH),
     'C09': dict(cat='other', design='7/C09', text='Type spellings (Typename / Type / TemplatedType.to_cpp), qualification and keyword-argument / lambda-parameter agreement proved for all inputs; balance, '
                      'arity agreement, declared-before-use module variables and qualification checked on real output by a strict reader on the bounded scope. No compiler is run.',
                 note=BOUNDED_NOTE, technique=PY_TECH),
-    'C10': dict(cat='other', design='7/C10', text='Bounded: the generated file tree and MEX preamble are compared with the entities declared by the reference semantics (classdefs in +package paths, '
-                     'function files, enumeration classdefs with numbering, one MEX source, collectors, clean-up, RTTI).', note=BOUNDED_NOTE,
-                technique='bounded stand-in: generated toolbox read back and compared with declared entities on a stated scope'),
+    'C10': dict(cat='other', design='7/C10', text='Proved: the enumeration classdef text (enumerators in declared order numbered from 0). Bounded: the generated file tree and MEX preamble are compared with the entities declared by the reference semantics (classdefs in +package paths, function files, one MEX source, collectors, clean-up, RTTI) under both serialization settings.', note=BOUNDED_NOTE,
+                technique='contract-based deductive verification (Python-ast -> SMT VCs, z3+cvc5) of the functions listed in the evidence; bounded stand-in (real output read back / reference oracle on a stated scope) for the rest'),
     'C12': dict(cat='other', design='7/C12', text='Exact: every composite grammar element carries the comment-ignore expression and skips white space; terminals spanning two tokens are the listed ones. '
                      'Bounded: seeded re-layouts (blanks, newlines, block/line comments with braces, semicolons, quotes) give equal trees and byte-identical wrappers.',
                 note=BOUNDED_NOTE, technique='structural inspection of the grammar graph + bounded differential re-layout'),
@@ -65,9 +55,8 @@ CHECKS = {
     'C16': dict(cat='other', design='7/C16', text='Bounded scenarios on real files and subprocesses: main file declares / calls one initialiser per part in order and each part equals wrapping its text alone; MATLAB file lists '
                      'with varied final characters equal one concatenated file; both scripts equal the API over option combinations; namespace option conversion located structurally.',
                 note=BOUNDED_NOTE, technique='bounded scenario checks of composition (API and subprocess)'),
-    'C17': dict(cat='other', design='7/C17', text='Bounded: documentation texts over character-class representatives go through generated Doxygen XML, the real extractor and generator; the emitted literal is decoded by a reference '
-                     'C++ literal decoder; overload matching, empty docstrings for missing documentation and "nothing else changes" are checked.', note=BOUNDED_NOTE,
-                technique='bounded stand-in: escaping round trip with a reference decoder + scenario checks'),
+    'C17': dict(cat='other', design='7/C17', text='Proved: overload selection (determine_documenting_index: the k-th request for a signature gets the k-th documented definition, never out of range, other remembered keys untouched). Bounded: documentation texts over character-class representatives go through generated Doxygen XML, the real extractor and generator; the emitted literal is decoded by a reference C++ literal decoder; overload matching, empty docstrings for missing documentation and "nothing else changes" are checked.', note=BOUNDED_NOTE,
+                technique='contract-based deductive verification (Python-ast -> SMT VCs, z3+cvc5) of the functions listed in the evidence; bounded stand-in (real output read back / reference oracle on a stated scope) for the rest'),
     'C19': dict(cat='exploration', design='7/C19', text='Bounded exploration with a deterministic ghost cost (matcher invocations) on scaled families (namespace depth, commented headers, template-argument depth, file size), '
                      'also after a failed parse in the same process.', note='bounds and envelopes are stated in the evidence; an unbounded complexity proof of the third-party matcher is out of reach',
                 technique='bounded cost exploration with call counting (no timing)'),
